@@ -238,96 +238,121 @@ Section RT.
         batch_sign enc c (S k) esize enbits bs'
     end.
 
-  (* [call_processor d x o] = descriptor->type.processor(data, ctx) for a BpType described by d:
-     the generated BpXXXProcess* function builds the descriptor and calls
+  (* The walkers below take [cp], the meaning of `type.processor(data, ctx)` for a BpType
+     (tied into a knot by [call_processor] further down), so that each C function is one
+     named definition. *)
+  Section Walk.
+    Variable cp : desc -> cctx -> obj -> cres (cctx * obj).
+    Variable enc : bool.
+
+    (* ---- BpEndecodeMessageField, bitproto.c:101-120 ---- *)
+    Definition field_step (fd : desc) (x : cctx) (fo : obj) : cres (cctx * obj) :=
+      if flag_in (d_flag fd) base_flags_field then                          (* L104-109 *)
+        on_bytes fo (base_type enc (d_nbits fd) x)
+      else if d_flag fd =? BP_TYPE_INT then                                 (* L110-113 *)
+        on_bytes fo (endecode_int enc (d_size fd) (d_nbits fd) x)
+      else if flag_in (d_flag fd) proc_flags_field then                     (* L114-118 *)
+        cp fd x fo
+      else COk (x, fo).
+
+    (* the field loop of BpEndecodeMessage, L85-89; fds[k].data = &(m->field) *)
+    Fixpoint fields_loop (l : list (Z * desc)) (cnt : nat) (x : cctx) (o : obj) {struct l}
+      : cres (cctx * obj) :=
+      match cnt, l with
+      | O, _ => COk (x, o)                                                  (* k == nfields *)
+      | S _, [] => CStuck                                                   (* nfields > table length *)
+      | S cnt', (fn, fd) :: rest =>
+          fo <-- get_fld o fn ;;
+          r <-- field_step fd x fo ;;
+          o' <-- set_fld o fn (snd r) ;;
+          fields_loop rest cnt' (fst r) o'
+      end.
+
+    (* ---- BpEndecodeMessage, bitproto.c:67-98 ---- *)
+    Definition endecode_message (ext : bool) (nfields dnbits : Z) (fds : list (Z * desc))
+               (x : cctx) (o : obj) : cres (cctx * obj) :=
+      let i := xi x in                                                      (* L70 *)
+      xa <-- (if ext then                                                   (* L74 *)
+                if enc then x' <-- encode_ahead (ah_msg_val dnbits) x ;; COk (x', 0)   (* L77 *)
+                else decode_ahead x                                         (* L80 *)
+              else COk (x, 0)) ;;
+      r <-- fields_loop fds (Z.to_nat nfields) (fst xa) o ;;                (* L85-89 *)
+      if ext && negb enc then                                               (* L92 *)
+        let ito := ms_ito i (snd xa) in                                     (* L93 *)
+        if ms_ito_taken ito (xi (fst r)) then COk ({| xs := xs (fst r); xi := ito |}, snd r)   (* L94-95 *)
+        else COk r
+      else COk r.
+
+    (* the switch inside the per-element loop of BpEndecodeArray, L211-225 *)
+    Definition elem_step (elem : desc) (x : cctx) (e : obj) : cres (cctx * obj) :=
+      let flag := d_flag elem in
+      if flag_in flag base_flags_field then                                 (* L212-217 *)
+        on_bytes e (base_type enc (d_nbits elem) x)
+      else if flag =? BP_TYPE_INT then                                      (* L218-220 *)
+        on_bytes e (endecode_int enc (d_size elem) (d_nbits elem) x)
+      else if flag_in flag proc_flags_elem then                             (* L221-224 *)
+        cp elem x e
+      else COk (x, e).
+
+    (* the per-element loop, L210-228 *)
+    Definition elems_loop (elem : desc) : nat -> nat -> cctx -> obj -> cres (cctx * obj) :=
+      fix loop (cnt : nat) (k : nat) (x : cctx) (o : obj) {struct cnt} : cres (cctx * obj) :=
+        match cnt with
+        | O => COk (x, o)
+        | S c =>
+            e <-- get_elem o k (d_size elem) ;;
+            r <-- elem_step elem x e ;;
+            o' <-- set_elem o k (d_size elem) (snd r) ;;
+            loop c (S k) (fst r) o'                                         (* L227 *)
+        end.
+
+    (* ---- BpEndecodeArray, bitproto.c:146-240 ---- *)
+    Definition endecode_array (ext : bool) (cap : Z) (elem : desc) (x : cctx) (o : obj)
+      : cres (cctx * obj) :=
+      let i := xi x in                                                      (* L149 *)
+      xa <-- (if ext then                                                   (* L153 *)
+                if enc then x' <-- encode_ahead (ah_arr_val cap) x ;; COk (x', 0)   (* L156 *)
+                else decode_ahead x                                         (* L159 *)
+              else COk (x, 0)) ;;
+      let element_nbits := d_nbits elem in                                  (* L164 *)
+      let element_size := d_size elem in                                    (* L165 *)
+      let flag := d_flag elem in                                            (* L168 *)
+      let to_flag := d_to_flag elem in                                      (* L171 *)
+      r <-- (if batch_pred element_nbits flag to_flag then                  (* L175-186 *)
+               on_bytes o (fun bs =>
+                 r0 <-- base_type enc (ar_batch_nbits element_nbits cap) (fst xa) bs ;;   (* L196 *)
+                 if ar_sign_needed flag to_flag then                        (* L198 *)
+                   bs' <-- batch_sign enc (Z.to_nat cap) 0 element_size element_nbits (snd r0) ;;
+                   COk (fst r0, bs')
+                 else COk r0)
+             else elems_loop elem (Z.to_nat cap) O (fst xa) o) ;;           (* L210-228 *)
+      if ext && negb enc then                                               (* L232 *)
+        let ito := ar_ito i (snd xa) (xi (fst r)) cap in                    (* L235 *)
+        if ar_ito_taken ito (xi (fst r)) then COk ({| xs := xs (fst r); xi := ito |}, snd r)   (* L236-237 *)
+        else COk r
+      else COk r.
+
+    (* ---- BpEndecodeAlias, bitproto.c:126-142 ---- *)
+    Definition endecode_alias (to : desc) (x : cctx) (o : obj) : cres (cctx * obj) :=
+      let f := d_flag to in
+      if flag_in f base_flags_alias then                                    (* L129-133 *)
+        on_bytes o (base_type enc (d_nbits to) x)
+      else if f =? BP_TYPE_INT then                                         (* L134-137 *)
+        on_bytes o (endecode_int enc (d_size to) (d_nbits to) x)
+      else if f =? BP_TYPE_ARRAY then                                       (* L138-140 *)
+        cp to x o
+      else COk (x, o).
+  End Walk.
+
+  (* [call_processor enc d x o] = descriptor->type.processor(data, ctx) for a BpType described
+     by d: the generated BpXXXProcess* function builds the descriptor and calls
      BpEndecodeAlias / BpEndecodeArray / BpEndecodeMessage. *)
   Fixpoint call_processor (enc : bool) (d : desc) (x : cctx) (o : obj) {struct d} : cres (cctx * obj) :=
     match d with
     | DBase _ _ _ => CStuck                                                 (* processor is NULL *)
-    | DAlias _ _ _ to =>
-        (* ---- BpEndecodeAlias, bitproto.c:126-142 ---- *)
-        let f := d_flag to in
-        if flag_in f base_flags_alias then                                  (* L129-133 *)
-          on_bytes o (base_type enc (d_nbits to) x)
-        else if f =? BP_TYPE_INT then                                       (* L134-137 *)
-          on_bytes o (endecode_int enc (d_size to) (d_nbits to) x)
-        else if f =? BP_TYPE_ARRAY then                                     (* L138-140 *)
-          call_processor enc to x o
-        else COk (x, o)
-    | DArray _ _ ext cap elem =>
-        (* ---- BpEndecodeArray, bitproto.c:146-240 ---- *)
-        let i := xi x in                                                    (* L149 *)
-        xa <-- (if ext then                                                 (* L153 *)
-                  if enc then x' <-- encode_ahead (ah_arr_val cap) x ;; COk (x', 0)   (* L156 *)
-                  else decode_ahead x                                       (* L159 *)
-                else COk (x, 0)) ;;
-        let x1 := fst xa in
-        let ahead := snd xa in
-        let element_nbits := d_nbits elem in                                (* L164 *)
-        let element_size := d_size elem in                                  (* L165 *)
-        let flag := d_flag elem in                                          (* L168 *)
-        let to_flag := d_to_flag elem in                                    (* L171 *)
-        r <-- (if batch_pred element_nbits flag to_flag then                (* L175-186 *)
-                 on_bytes o (fun bs =>
-                   r0 <-- base_type enc (ar_batch_nbits element_nbits cap) x1 bs ;;    (* L196 *)
-                   if ar_sign_needed flag to_flag then                      (* L198 *)
-                     bs' <-- batch_sign enc (Z.to_nat cap) 0 element_size element_nbits (snd r0) ;;
-                     COk (fst r0, bs')
-                   else COk r0)
-               else
-                 (fix loop (cnt : nat) (k : nat) (x : cctx) (o : obj) : cres (cctx * obj) :=   (* L210-228 *)
-                    match cnt with
-                    | O => COk (x, o)
-                    | S c =>
-                        e <-- get_elem o k element_size ;;
-                        r <-- (if flag_in flag base_flags_field then        (* L212-217 *)
-                                 on_bytes e (base_type enc element_nbits x)
-                               else if flag =? BP_TYPE_INT then             (* L218-220 *)
-                                 on_bytes e (endecode_int enc element_size element_nbits x)
-                               else if flag_in flag proc_flags_elem then    (* L221-224 *)
-                                 call_processor enc elem x e
-                               else COk (x, e)) ;;
-                        o' <-- set_elem o k element_size (snd r) ;;
-                        loop c (S k) (fst r) o'                             (* L227 *)
-                    end) (Z.to_nat cap) O x1 o) ;;
-        let x2 := fst r in
-        if ext && negb enc then                                             (* L232 *)
-          let ito := ar_ito i ahead (xi x2) cap in                          (* L235 *)
-          if ar_ito_taken ito (xi x2) then COk ({| xs := xs x2; xi := ito |}, snd r)   (* L236-237 *)
-          else COk r
-        else COk r
-    | DMsg _ ext nfields dnbits fds =>
-        (* ---- BpEndecodeMessage, bitproto.c:67-98 ---- *)
-        let i := xi x in                                                    (* L70 *)
-        xa <-- (if ext then                                                 (* L74 *)
-                  if enc then x' <-- encode_ahead (ah_msg_val dnbits) x ;; COk (x', 0)   (* L77 *)
-                  else decode_ahead x                                       (* L80 *)
-                else COk (x, 0)) ;;
-        let x1 := fst xa in
-        let ahead := snd xa in
-        r <-- (fix fields (l : list (Z * desc)) (cnt : nat) (x : cctx) (o : obj) : cres (cctx * obj) :=   (* L85-89 *)
-                 match cnt, l with
-                 | O, _ => COk (x, o)                                        (* k == nfields *)
-                 | S _, [] => CStuck                                         (* nfields > table length *)
-                 | S cnt', (fn, fd) :: rest =>
-                     (* ---- BpEndecodeMessageField, bitproto.c:101-120 ---- *)
-                     fo <-- get_fld o fn ;;                           (* descriptor->data = &(m->field) *)
-                     r <-- (if flag_in (d_flag fd) base_flags_field then    (* L104-109 *)
-                              on_bytes fo (base_type enc (d_nbits fd) x)
-                            else if d_flag fd =? BP_TYPE_INT then           (* L110-113 *)
-                              on_bytes fo (endecode_int enc (d_size fd) (d_nbits fd) x)
-                            else if flag_in (d_flag fd) proc_flags_field then   (* L114-118 *)
-                              call_processor enc fd x fo
-                            else COk (x, fo)) ;;
-                     o' <-- set_fld o fn (snd r) ;;
-                     fields rest cnt' (fst r) o'
-                 end) fds (Z.to_nat nfields) x1 o ;;
-        let x2 := fst r in
-        if ext && negb enc then                                             (* L92 *)
-          let ito := ms_ito i ahead in                                      (* L93 *)
-          if ms_ito_taken ito (xi x2) then COk ({| xs := xs x2; xi := ito |}, snd r)   (* L94-95 *)
-          else COk r
-        else COk r
+    | DAlias _ _ _ to => endecode_alias (call_processor enc) enc to x o
+    | DArray _ _ ext cap elem => endecode_array (call_processor enc) enc ext cap elem x o
+    | DMsg _ ext nfields dnbits fds => endecode_message (call_processor enc) enc ext nfields dnbits fds x o
     end.
 
   (* Encode<Msg>(m, s) / Decode<Msg>(m, s): ctx = {is_encode, 0, s}; BpXXXProcess<Msg>(m, &ctx) *)
